@@ -215,7 +215,9 @@ def model_line(ring, p, op, a, exbr=None):
             op = "negn" if op in ("neg", "negin") else "maxpyn"
         return "bi %d %d %s %s" % (BI_BITS[ring], p, op, args)
     if ring in EX_PREC:
-        mb, rb = (exbr or {}).get(ring, (0, 0))
+        if exbr is None:          # branches of this configuration could not be matched to the models (recorded as inconclusive)
+            return None
+        mb, rb = exbr.get(ring, (0, 0))
         return "xb %d %d %d %d %s %s" % (mb, rb, EX_PREC[ring], p, op, args)
     if ring.startswith("ru"):
         if op in NO_MODEL_OPS["ru"]:
@@ -727,6 +729,9 @@ def gen_cases(rng, ring, p, per, cases):
                 cases.append((ring, p, op, operands(rng, ring, p, 2)))
 
 
+SPLIT_UNREADABLE = []
+
+
 def write_params(info):
     """coq/C03/Params.v: the advertised bounds exactly as the compiled implementation reports them"""
     lines = ["(* GENERATED by checks/C03.py from Ring::minCardinality()/maxCardinality() of /repo's current headers",
@@ -754,10 +759,26 @@ def write_params(info):
     shifts = {"double": 0, "float": 0}
     try:
         src = open(os.path.join(vf.REPO, ANCHOR_DIR, "modular-extended.h"), errors="replace").read()
-        for ty, sh in re.findall(r"is_same<Element,\s*(double|float)>::value\)\s*\{\s*c\s*=\s*\(Element\)\(\(1\s*<<\s*(\d+)\)\s*\+\s*1\)\s*;", src):
-            shifts[ty] = int(sh)
+        src = re.sub(r"/\*.*?\*/", " ", src, flags=re.S)
+        src = re.sub(r"//[^\n]*", "", src)
+        m = re.search(r"\bsplit\s*\(", src)
+        body = src[m.start():m.start() + 1500] if m else src
+        # tolerant of layout: "is_same<Element, T>" ... up to the next "<<" ... the shift count
+        for ty, sh in re.findall(r"is_same\s*<\s*Element\s*,\s*(double|float)\s*>.*?<<\s*(\d+)", body, flags=re.S):
+            shifts[ty] = shifts[ty] or int(sh)
     except OSError:
         pass
+    if not (shifts["double"] and shifts["float"]):
+        # could not be read (source reformatted beyond recognition): keep the values of the existing Params.v and say so
+        SPLIT_UNREADABLE.append("Veltkamp constants not found in modular-extended.h")
+        try:
+            old = open(os.path.join(vf.coq_dir(AREA), "Params.v")).read()
+            for ty in shifts:
+                mm = re.search(r"split_shift_%s : Z := (\d+)" % ty, old)
+                if mm and not shifts[ty]:
+                    shifts[ty] = int(mm.group(1))
+        except OSError:
+            pass
     lines.append("Definition split_shift_double : Z := %d." % shifts["double"])
     lines.append("Definition split_shift_float : Z := %d." % shifts["float"])
     txt = "\n".join(lines) + "\n"
@@ -1186,7 +1207,10 @@ def main(tier, replay=None):
         t = l.split()
         info[r] = (int(t[0]), int(t[1]))
     chk.cov["advertised_bounds"] = {r: list(v) for r, v in info.items()}
-    write_params(info)
+    write_params(info)          # written only if the content changed (vf.write_if_changed)
+    if SPLIT_UNREADABLE:
+        inconclusive.extend(SPLIT_UNREADABLE)
+        floor_missed.append("C03_extended_split_constants_as_in_source re-checked against the previous constants, not the source")
     # 1. proofs
     _t0 = _t.time()
     res = vf.coq_check_props(AREA)
@@ -1296,6 +1320,7 @@ def main(tier, replay=None):
     if rc != 0 or len(iout) != len(cases):
         if rc == 124:
             chk.cov["inconclusive"] = inconclusive + ["implementation harness timed out (machine load); no verdict from the streams"]
+            chk.cov["floor_missed"] = floor_missed + ["no implementation stream was evaluated: THIS RUN SAYS NOTHING ABOUT THE OPERATIONS OF /repo"]
             return chk.finish()
         chk.broke("implementation harness failed (rc=%s, %d/%d lines)" % (rc, len(iout), len(cases)), ierr[-2000:])
         return chk.finish()
@@ -1393,6 +1418,21 @@ def main(tier, replay=None):
     chk.cov["cases_per_configuration"] = per_cfg
     chk.cov["moduli_for_results_landing_on_the_modulus"] = landing_rec
     chk.cov["model_comparisons_per_configuration"] = ncmp
+    # floors: what must have been compared for this run to count as a run (tooling problems below are recorded prominently,
+    # they are neither a pass nor a violation)
+    floors = {"oracle_comparisons_native": 300000 if quick else 1000000, "model_comparisons_native": 250000 if quick else 800000,
+              "oracle_comparisons_per_other_configuration": 10000, "configurations_driven": len(CONFIGS)} if not replay else {}
+    got_fl = {"oracle_comparisons_native": per_cfg.get("native", 0), "model_comparisons_native": ncmp.get("native", 0),
+              "oracle_comparisons_per_other_configuration": min([v for k, v in per_cfg.items() if k != "native"] or [0]),
+              "configurations_driven": len(per_cfg)}
+    for k, v in floors.items():
+        if got_fl[k] < v:
+            floor_missed.append("%s: %d < floor %d" % (k, got_fl[k], v))
+    chk.cov["floors"] = {"required": floors, "reached": got_fl}
+    if HANGS:
+        chk.cov["cases_that_did_not_return_within_the_cpu_budget"] = [{"case": c, "after_rerun_with_5x_budget": a} for c, a in HANGS[:20]]
+    if floor_missed:
+        chk.cov["floor_missed"] = floor_missed
     if inconclusive:
         chk.cov["inconclusive"] = inconclusive
     if os.environ.get("C03_DEBUG"):
